@@ -635,6 +635,14 @@ impl ContinuityStreamCache {
             ParseMode::Event,
             None,
         )?;
+        // A window that stops short of the start of the sidecar cannot tell which checkpoint wins
+        // (an older frame may carry the greater `to_seq`): callers fall back to the truth log.
+        if !parsed.complete {
+            return Err(io::Error::new(
+                io::ErrorKind::InvalidData,
+                "compaction checkpoints sidecar exceeds the back-scan window",
+            ));
+        }
 
         let mut best: Option<Event> = None;
         for event in parsed.events {
